@@ -82,7 +82,8 @@ Example C02_roundtrip_nonvacuous :
 Proof.
   cbv zeta. split; [|split].
   - apply wf_imageb_ok. vm_compute. reflexivity.
-  - apply table_hypb_ok. vm_compute. reflexivity.
+  - eexists. eexists. split; [vm_compute; reflexivity|]. split; [vm_compute; reflexivity|].
+    apply coversb_ok. vm_compute. reflexivity.
   - eexists. split; vm_compute; reflexivity.
 Qed.
 
@@ -95,7 +96,8 @@ Example C02_roundtrip_nonvacuous_auto :
 Proof.
   cbv zeta. split; [|split].
   - apply wf_imageb_ok. vm_compute. reflexivity.
-  - apply table_hypb_ok. vm_compute. reflexivity.
+  - eexists. eexists. split; [vm_compute; reflexivity|]. split; [vm_compute; reflexivity|].
+    apply coversb_ok. vm_compute. reflexivity.
   - eexists. split; vm_compute; reflexivity.
 Qed.
 
@@ -109,7 +111,8 @@ Example C02_roundtrip_sv1_nonvacuous :
 Proof.
   cbv zeta. split; [|split; [|split]].
   - apply wf_imageb_ok. vm_compute. reflexivity.
-  - apply table_hypb_ok. vm_compute. reflexivity.
+  - eexists. eexists. split; [vm_compute; reflexivity|]. split; [vm_compute; reflexivity|].
+    apply coversb_ok. vm_compute. reflexivity.
   - vm_compute. tauto.
   - eexists. split; vm_compute; reflexivity.
 Qed.
